@@ -131,6 +131,7 @@ type world struct {
 	nextObj   int
 	committed map[string]int
 	owner     map[*object]*txRun // write owner between first write callback and commit
+	inside    map[*object]map[*txRun]bool // transactions currently inside a callback on the object
 	txs       []*txRun
 	violation error
 	trace     []string
@@ -286,15 +287,25 @@ func (w *world) runTx(t *txRun) {
 				w.violation = firstErr(w.violation, fmt.Errorf("tx%d was handed object %d of cache %q reflecting committed version %d, but version %d was committed before this transaction began (stale cache survived a commit)", t.idx, o.id, a.Name, o.version, t.startVer[a.Name]))
 			}
 			if !a.ReadOnly {
+				for other := range w.inside[o] {
+					if other != t {
+						w.violation = firstErr(w.violation, fmt.Errorf("tx%d was handed object %d of cache %q for writing while tx%d is still inside a callback on it", t.idx, o.id, a.Name, other.idx))
+					}
+				}
 				w.owner[o] = t
 				t.written[a.Name] = o
 			}
+			if w.inside[o] == nil {
+				w.inside[o] = map[*txRun]bool{}
+			}
+			w.inside[o][t] = true
 			t.state = stInCallback
 			w.mu.Unlock()
 			t.parked <- struct{}{}
 			<-t.tokens // the scheduler ends the callback
 			w.mu.Lock()
 			defer w.mu.Unlock()
+			delete(w.inside[o], t)
 			t.state = stIssuing
 			if a.CallbackFail {
 				o.dead = true
@@ -370,7 +381,7 @@ func goidOf() int64 {
 
 func execCase(c Case) (res vt.Result) {
 	rec := vt.R()
-	w := &world{c: c, mgr: cache.NewManager(c.MaxSize), committed: map[string]int{}, owner: map[*object]*txRun{}}
+	w := &world{c: c, mgr: cache.NewManager(c.MaxSize), committed: map[string]int{}, owner: map[*object]*txRun{}, inside: map[*object]map[*txRun]bool{}}
 	blockedNow := map[int]bool{}
 	for i, p := range c.Programs {
 		t := &txRun{idx: i, prog: p, tokens: make(chan struct{}), parked: make(chan struct{}, 4), written: map[string]*object{}}
